@@ -40,6 +40,9 @@ func corpus() []*Case {
 		return XStep{Op: op, Title: hx("t"), DescLen: 1, Chain: hx("chain-a"), CS: cs, Cons: ConsSpec{Kind: cons, Ts: 1700000000}}
 	}
 	x := func(steps ...XStep) *Case { return &Case{Kind: "xibc", Xibc: &XibcSpec{Steps: steps}} }
+	relayer := func(addr string) XStep {
+		return XStep{Op: "relayer", Title: hx("t"), DescLen: 1, Address: hx(addr), Chains: []string{hx("chain-a")}, Addresses: []string{hx("0xabc")}}
+	}
 	out := []*Case{
 		// valid life cycles of every client type
 		x(step("create", tm, "tm"), step("upgrade", tm, "tm"), step("toggle", tss, "tss"), step("toggle", bsc(nil), "bsc"), step("upgrade", bsc(nil), "bsc"), step("toggle", eth(nil), "eth"), step("upgrade", eth(nil), "eth")),
@@ -48,6 +51,9 @@ func corpus() []*Case {
 		x(step("create", bsc(func(c *CSSpec) { c.Epoch = 0 }), "bsc")),
 		x(step("create", bsc(nil), "bsc"), step("upgrade", bsc(func(c *CSSpec) { c.Epoch = 0 }), "bsc")),
 		x(step("create", tm, "tm"), step("toggle", bsc(func(c *CSSpec) { c.Epoch = 0 }), "bsc")),
+		x(step("create", bsc(func(c *CSSpec) { c.Epoch, c.Hdr.Height.H = 0, 0 }), "bsc")),
+		// relayer proposals: valid, empty and malformed address
+		x(relayer(sdk.AccAddress(bytes.Repeat([]byte{1}, 20)).String()), relayer(""), relayer("x")),
 		// D4b: ETH 257-byte bloom at height 0
 		x(step("create", eth(func(c *CSSpec) { c.Hdr.Height.H, c.Hdr.BloomLen = 0, 257 }), "eth")),
 		x(step("create", eth(nil), "eth"), step("upgrade", eth(func(c *CSSpec) { c.Hdr.Height.H, c.Hdr.BloomLen = 0, 257 }), "eth")),
@@ -57,6 +63,11 @@ func corpus() []*Case {
 		x(step("create", bsc(func(c *CSSpec) { c.Hdr.Height.H, c.Hdr.NonceLen = 0, 9 }), "bsc")),
 		x(step("create", bsc(func(c *CSSpec) { c.Hdr.BloomLen = 257 }), "bsc")),
 		x(step("create", bsc(func(c *CSSpec) { c.Hdr.NonceLen = 9 }), "bsc")),
+		// BSC extra-data shorter than vanity + seal but long enough to carry a (valid) seal, at an epoch height:
+		// must be rejected by ValidateBasic, ParseValidators would slice out of range
+		x(step("create", bsc(func(c *CSSpec) { c.Hdr.ExtraLen = 65 }), "bsc")),
+		x(step("create", bsc(func(c *CSSpec) { c.Hdr.ExtraLen = 96 }), "bsc")),
+		x(step("create", bsc(nil), "bsc"), step("upgrade", bsc(func(c *CSSpec) { c.Hdr.ExtraLen = 80; c.Hdr.Height.H = 400 }), "bsc")),
 		// D4d: BSC chain id >= 2^63
 		x(step("create", bsc(func(c *CSSpec) { c.ChainNum = 1 << 63 }), "bsc")),
 		x(step("create", bsc(nil), "bsc"), step("upgrade", bsc(func(c *CSSpec) { c.ChainNum = ^uint64(0) }), "bsc")),
@@ -78,6 +89,12 @@ func corpus() []*Case {
 		&Case{Kind: "gen_xibc", GenX: &GenXSpec{Native: hx("teleport"), Clients: []GXClient{{Chain: hx("chain-a"), CS: tm}, {Chain: hx("bsc-testnet"), CS: bsc(nil)}},
 			Consensus: []GXCons{{Chain: hx("chain-a"), States: []GXConsAt{{Height: H{1, 10}, Cons: ConsSpec{Kind: "tm", Ts: 1700000000}}}}},
 			Relayers:  []GXRelayer{{Address: hx(good), Chains: []string{hx("chain-a")}, Addresses: []string{hx("0xabc")}}}}},
+		// finding bsc-upgrade-malformed-signer-key: imported metadata key "recentSingers", then an upgrade proposal
+		&Case{Kind: "gen_xibc", GenX: &GenXSpec{Native: hx("teleport"), Clients: []GXClient{{Chain: hx("chain-a"), CS: bsc(nil)}},
+			Metadata: []GXMeta{{Chain: hx("chain-a"), Items: []GXItem{{Key: hx("recentSingers"), ValLen: 1}}}},
+			Then:     []XStep{step("upgrade", bsc(nil), "bsc")}}},
+		&Case{Kind: "gen_xibc", GenX: &GenXSpec{Native: hx("teleport"), Clients: []GXClient{{Chain: hx("chain-a"), CS: tm}},
+			Metadata: []GXMeta{{Chain: hx("chain-a"), Items: []GXItem{{Key: hx("k"), ValLen: 0}}}}}},
 		&Case{Kind: "gen_agg", GenA: &GenASpec{EnableAggregate: true, EnableEVMHook: true, Pairs: []GAPair{{Erc20: hx(hexAddrs[1]), Denoms: nil, Enabled: true, Owner: 1}}}},
 		&Case{Kind: "gen_agg", GenA: &GenASpec{EnableAggregate: true, EnableEVMHook: true, Pairs: []GAPair{{Erc20: hx(hexAddrs[1]), Denoms: []string{hx("ucoin"), hx("uother")}, Enabled: true, Owner: 1}}}},
 		&Case{Kind: "gen_rv", GenR: &GenRSpec{Enable: true, Rewards: []Pair{{"atele", "5"}}, From: hx(good), InitReward: []Pair{{"atele", "100"}}, FromBal: []Pair{{"atele", "100"}}}},
@@ -103,6 +120,11 @@ func corpus() []*Case {
 		astep("trace", func(s *AStep) { s.Contract, s.Token, s.Chain, s.Scale = hx("@deployed"), hx("0xabc"), hx("eth"), 0 }),
 		astep("enable_limit", func(s *AStep) { s.Contract = hx("@deployed"); s.Nums = []string{hx("10"), hx("1000"), hx("100"), hx("1")} }),
 		astep("disable_limit", func(s *AStep) { s.Contract = hx("@deployed") }),
+		// numeric strings with surrounding white space: ValidateBasic and the handler must agree on what parses
+		astep("enable_limit", func(s *AStep) { s.Contract = hx("@deployed"); s.Nums = []string{hx(" 10"), hx("1000"), hx("100"), hx("1")} }),
+		astep("enable_limit", func(s *AStep) { s.Contract = hx("@deployed"); s.Nums = []string{hx("10"), hx("1000\n"), hx("100"), hx("1")} }),
+		astep("enable_limit", func(s *AStep) { s.Contract = hx("@deployed"); s.Nums = []string{hx("10"), hx("1000"), hx("\t100"), hx("1 ")} }),
+		astep("enable_limit", func(s *AStep) { s.Contract = hx("@deployed"); s.Nums = []string{hx("+10"), hx("1000"), hx("100"), hx("\u00a01")} }),
 		astep("param", func(s *AStep) { s.Key, s.Value = "EnableAggregate", hx("false") }),
 		astep("register_coin", func(s *AStep) { s.Meta = meta("uother", "other") }),
 	}}})
